@@ -15,13 +15,19 @@
     `Lexer.token` returns a token, a lexical error or the real end of input, and
     `token_eof_ok` never ends because the model's bound ran out: for the lexer and the stream
     the model's `fuel` outcome does not exist, every input is lexed to the end or rejected.
+  * the explicit structural checks, for every parser state of the stated shape
+    (`Theorems/Structural.lean`, `Theorems/ExternForm.lean`): `C06_friend_outside_class`,
+    `C06_access_outside_class` (error at the keyword, nothing consumed or delivered),
+    `C06_namespace_in_class` (also namespace aliases), `C06_concept_in_class`,
+    `C06_extern_in_class`, `C06_mismatched_closer` / `C06_closer_nothing_open` (bracket matcher).
   The remaining rejection rules are sites of the parser model tied by the correspondence and
   searched by the oracle; Python-level exceptions inside helpers are runtime behaviour (named).
 -/
 import CxxModel.Interp
 import CxxModel.Tables
 import CxxModel.Parser.Decl
-import CxxModel.Theorems.LexTotal
+import CxxModel.GenCfg
+import CxxModel.Theorems.Structural
 namespace Cxx
 
 theorem C06_runParse_total (env : Env) (hv : env.opts.verbose = false) (filename : String) (content : Str) (p : Prog Unit) :
@@ -65,15 +71,52 @@ theorem C06_stray_close_rejected (env : Env) (w : World) (g : Block) (hg : g.isG
   simp [interp, hs, hg]
 
 
-def genCfg6 : LexCfg := { rules := Gen.rules, literals := Gen.literals, ignore := Gen.ignore, keywords := Gen.keywords }
-
-theorem C06_rules_make_progress : RulesProgress genCfg6 = true := by decide +kernel
+theorem C06_rules_make_progress : RulesProgress genLexCfg = true := gen_rules_progress
 
 theorem C06_lexer_total (st : LexState) :
-    plyTokenF genCfg6 st ≠ .opaque ∧ (∀ st', plyTokenF genCfg6 st = .eof st' → st'.rest = []) :=
-  plyTokenF_total genCfg6 C06_rules_make_progress st
+    plyTokenF genLexCfg st ≠ .opaque ∧ (∀ st', plyTokenF genLexCfg st = .eof st' → st'.rest = []) :=
+  plyTokenF_total genLexCfg C06_rules_make_progress st
 
-theorem C06_stream_total (b : Buf) : tokenEofOk genCfg6 b ≠ .error .fuel :=
-  tokenEofOk_no_fuel genCfg6 C06_rules_make_progress b
+theorem C06_stream_total (b : Buf) : tokenEofOk genLexCfg b ≠ .error .fuel :=
+  tokenEofOk_no_fuel genLexCfg C06_rules_make_progress b
+
+theorem C06_friend_outside_class (env : Env) (F : Nat) (c : P.Core) (tok : CTok) (doxygen : Option String) (template : TemplateVar)
+    (w : World) (blk : Block) (rest : List Block) (hstack : w.stack = blk :: rest) (hk : blk.view.kind ≠ .cls) :
+    interp env (P.parseFriendDecl F c tok doxygen template) w =
+      (w, .error (.parse ("unexpected '" ++ tok.value ++ "'") (some tok))) :=
+  friend_outside_class env F c tok doxygen template w blk rest hstack hk
+
+theorem C06_access_outside_class (env : Env) (tok : CTok) (w : World) (blk : Block) (rest : List Block)
+    (hstack : w.stack = blk :: rest) (hk : blk.view.kind ≠ .cls) :
+    interp env (P.processAccessSpecifier tok) w = (w, .error (.parse ("unexpected '" ++ tok.value ++ "'") (some tok))) :=
+  access_outside_class env tok w blk rest hstack hk
+
+theorem C06_namespace_in_class (env : Env) (loc : LocRef) (doxygen : Option String) (inline : Bool) (names : List String)
+    (a : Option CTok) (w : World) (blk : Block) (rest : List Block) (hstack : w.stack = blk :: rest) (hk : blk.view.kind = .cls) :
+    ∃ msg, interp env (P.nsFinish loc doxygen inline names a) w = (w, .error (.parse msg none)) :=
+  namespace_in_class env loc doxygen inline names a w blk rest hstack hk
+
+theorem C06_concept_in_class (env : Env) (F : Nat) (doxygen : Option String) (template : TemplateDecl)
+    (w : World) (blk : Block) (rest : List Block) (hstack : w.stack = blk :: rest) (hk : blk.view.kind = .cls)
+    (w' : World) (r : Except Err Unit) (h : interp env (P.parseConcept F doxygen template) w = (w', r)) :
+    ∃ e, r = .error e :=
+  concept_in_class env F doxygen template w blk rest hstack hk w' r h
+
+theorem C06_extern_in_class (env : Env) (F : Nat) (c : P.Core) (tok : CTok) (doxygen : Option String) (str : Tok)
+    (w : World) (b1 : Buf) (blk : Block) (rest : List Block) (hstack : w.stack = blk :: rest) (hk : blk.view.kind = .cls)
+    (hs : str.type = "STRING_LITERAL") (htok : tokenEofOk env.cfg w.buf = .ok (some str, b1)) :
+    ∃ (w' : World), w'.buf = b1 ∧ SameParse w w' ∧
+      interp env (P.parseExtern F c tok doxygen) w = (w', .error (.parse ("unexpected '" ++ tok.value ++ "'") (some tok))) := by
+  obtain ⟨w', hb, hs', hi⟩ := extern_in_class_rejected env F c tok doxygen str w b1 blk rest hstack hk hs htok
+  exact ⟨w', hb, hs', by rw [hi, interp_raise_some]⟩
+
+theorem C06_mismatched_closer (st : List CTok × List String) (tok : CTok) (e : String) (stack : List String)
+    (hend : P.isBalancedEnd tok.type = true) (hst : st.2 = e :: stack) (hne : tok.type ≠ e) (h1 : tok.type ≠ ">") (h2 : e ≠ ">") :
+    P.balStep st tok = .error (P.unexpectedErr tok e) :=
+  mismatched_closer st tok e stack hend hst hne h1 h2
+
+theorem C06_closer_nothing_open (st : List CTok × List String) (tok : CTok)
+    (hend : P.isBalancedEnd tok.type = true) (hst : st.2 = []) : ∃ e, P.balStep st tok = .error e :=
+  closer_nothing_open st tok hend hst
 
 end Cxx
